@@ -17,11 +17,14 @@ an object with __getitem__/__len__ only), mappings (OrderedDict, defaultdict, Ch
 collections.abc.Mapping subclass that is no dict), objects that implement the whole Mapping protocol without
 inheriting from or being registered with collections.abc.Mapping (items()/keys()/values() returning lists, or
 one-shot iterators), another ThresholdCounter (the class calls itself a "dict-like Mapping from keys to counts"; the
-additions are the pairs its items() reports just before the call), and empty arguments.  After every update() the
-caller empties the container it passed.
+additions are the pairs its items() reports just before the call; the source is exact, or has culled part of its own
+stream so that its total exceeds the sum of its items, or is the counter itself), and empty arguments.  After every
+update() the caller empties the container it passed.
 updates='failing' configurations add update() calls whose source fails part-way after handing over well-formed keys /
 counts (a generator that raises, an iterator whose __next__ raises KeyError, a dict / keyword counts whose last count
-is None / 2.5 / '2', a duck-typed mapping whose items() iterator raises, a non-iterable argument).  Whether update()
+is None / 2.5 / '2', a duck-typed mapping whose items() iterator raises, a non-iterable argument) and calls that are
+handed an unhashable object where a key is expected (add([]), add({}), ..., update([key, <unhashable>, key]); the
+rejected object has no true count and may or may not be counted in total).  Whether update() / add()
 raises is not judged.  The statement does not say how many of the handed-over additions count; the object's total
 says how many it counted: i = total - additions before must lie in 0..handed over       C20|op:update(failing-source)|total-...
 and the stream continues with the first i of them as the additions made; an over-/under-count under that reading is
@@ -38,7 +41,8 @@ object being driven by a representative stream for each abstract state.  All ora
 Oracles after every operation (state oracle; a failing transition is not expanded):
     the call returns, total == number of additions                       C20|op:<op shape>|raised / total
         (op shapes: add, update(iterable), update(mapping), update(iterable,**counts), update(mapping,**counts),
-        update(own-lazy-view), update(duck-typed-mapping), update(ThresholdCounter))
+        update(own-lazy-view), update(duck-typed-mapping), update(ThresholdCounter), add(unhashable-object),
+        update(iterable-holding-an-unhashable-object))
     for every key of the stream (and one never-added key), reported = tc[k] if k in tc else 0:
     reported <= true, true - reported <= floor(total / floor(1/threshold))
                                        C20|invariant:over-count / under-count>slack / frequent-key-absent
@@ -91,7 +95,12 @@ DUCK_KINDS = {'mq': 'duck-typed-mapping(lists)', 'mi': 'duck-typed-mapping(itera
 # update() calls whose *source* fails part-way (the keys / counts handed over before the failure are well-formed):
 FAIL_KINDS = {'xg': 'generator-that-raises', 'xr': 'iterator-whose-__next__-raises-KeyError',
               'xm': 'dict-with-a-non-integer-count-last', 'xq': 'duck-typed-mapping-whose-items()-raises',
-              'xk': 'list,**counts-with-a-non-integer-count-last', 'xn': 'non-iterable'}
+              'xk': 'list,**counts-with-a-non-integer-count-last', 'xn': 'non-iterable',
+              # ... and calls that are handed an object that cannot be a key (unhashable) between ordinary keys
+              'xa': 'add-of-an-unhashable-object', 'xu': 'list-holding-an-unhashable-object'}
+MAX_REJECTED_COUNTED = 2          # unhashable objects are offered while total counts fewer than this many of them
+UNH = '<unhashable object>'       # stands for the rejected object in the additions; never a key of the true counts
+UNHASHABLE = (list, dict, lambda: ('GET', []), set, bytearray)
 BAD_COUNTS = (None, 2.5, '2')     # range(count) refuses them
 FAIL_SHAPE = 'update(failing-source)'
 
@@ -165,7 +174,8 @@ class Model:
     def apply(self, op, fed=None):
         """fed: the (key, 1) additions a view operation was seen to feed (recorded while update() consumed the view)."""
         for k, n in (additions(op) if fed is None else fed):
-            self.true[k] = self.true.get(k, 0) + n
+            if k != UNH:
+                self.true[k] = self.true.get(k, 0) + n
             self.adds += n
             self.stream.append((k, n))
 
@@ -194,6 +204,10 @@ def offered(op):
     kind = op[0]
     if kind == 'xn':
         return []
+    if kind == 'xa':
+        return [(UNH, 1)]
+    if kind == 'xu':
+        return [(k, 1) for k in op[1]] + [(UNH, 1)] + [(k, 1) for k in op[2]]
     if kind in ('xg', 'xr'):
         return [(k, 1) for k in op[1]]
     if kind in ('xm', 'xq'):
@@ -213,7 +227,8 @@ def account(model, op, r, tc):
         return None
     units = r[2]
     for k, _ in units:
-        model.true.setdefault(k, 0)
+        if k != UNH:
+            model.true.setdefault(k, 0)
     total = guarded(lambda: tc.total)
     i = total - model.adds if type(total) is int else -1
     if not 0 <= i <= len(units):
@@ -234,6 +249,7 @@ def other_reading_possible(before, units, total, reported, slack):
         if lo > hi:
             return False
         lo_sum, hi_sum = lo_sum + lo, hi_sum + hi
+    hi_sum += off.get(UNH, 0)                  # a rejected object may or may not count as an addition
     return lo_sum <= total - before.adds <= hi_sum
 
 
@@ -252,7 +268,7 @@ def additions(op):
         return [(k, 1) for k in op[1]] + [(k, n) for k, n in op[2]]
     if kind == 'mkw':
         return [(k, n) for k, n in op[1]] + [(k, n) for k, n in op[2]]
-    if kind in VIEW_OPS:
+    if kind in VIEW_OPS or kind in ('mT', 'mS'):
         raise AssertionError('the additions of a view operation are only known by executing it: %r' % (op,))
     raise AssertionError(op)
 
@@ -272,6 +288,10 @@ _LABEL = {'ul': 'update(list)', 'ut': 'update(tuple)', 'ug': 'update(generator)'
 for _kinds in (ITER_KINDS, MAP_KINDS, DUCK_KINDS, FAIL_KINDS):
     _LABEL.update({k: 'update(%s)' % v for k, v in _kinds.items()})
 _SHAPE.update({k: FAIL_SHAPE for k in FAIL_KINDS})
+_SHAPE.update({'xa': 'add(unhashable-object)', 'xu': 'update(iterable-holding-an-unhashable-object)',
+               'mT': 'update(ThresholdCounter)', 'mS': 'update(ThresholdCounter)'})
+_LABEL.update({'xa': 'add(unhashable object)', 'mT': 'update(another ThresholdCounter that has culled keys)',
+               'mS': 'update(the counter itself)'})
 
 
 def opsig(op):
@@ -509,10 +529,27 @@ def impl_apply(tc, op, enc=_same, dec=_same):
             for k, n in op[1]:                       # the caller goes on using its other counter
                 src.add(enc(k))
             return ('ok', None, fed)
+        if kind == 'mT':
+            src = type(tc)(threshold=op[2])          # a counter with a short bucket: it has culled part of its stream
+            for k in op[1]:
+                src.add(enc(k))
+            fed = [(dec(k), c) for k, c in src.items()]
+            tc.update(src)
+            for k in op[1]:
+                src.add(enc(k))
+            return ('ok', None, fed)
+        if kind == 'mS':                             # the counter itself as the mapping of key to count
+            fed = [(dec(k), c) for k, c in tc.items()]
+            tc.update(tc)
+            return ('ok', None, fed)
         if kind in FAIL_KINDS:
             fed = offered(op)
             if kind == 'xn':
                 tc.update(5)
+            elif kind == 'xa':
+                tc.add(UNHASHABLE[op[1]]())
+            elif kind == 'xu':
+                tc.update([enc(k) for k in op[1]] + [UNHASHABLE[op[3]]()] + [enc(k) for k in op[2]])
             elif kind == 'xg':
                 tc.update(failing_gen([enc(k) for k in op[1]]))
             elif kind == 'xr':
@@ -737,10 +774,10 @@ class Spec:
         if m < self.nkeys:
             ops.append(key_name(m))
         if self.updates:
-            ops += self.update_menu(used)
+            ops += self.update_menu(used, model.adds - sum(model.true.values()))
         return ops
 
-    def update_menu(self, used):
+    def update_menu(self, used, rejected_counted=0):
         if self.updates == 'views':                      # the counter's own lazy views as the iterable of keys
             return [('ve',), ('vk',)]
         m = len(used)
@@ -753,6 +790,8 @@ class Spec:
             ops = [('xg', (y, x, y)), ('xg', (x,)), ('xg', ()), ('xr', (x, y)), ('xm', ((x, 2), (y, 1)), 0),
                    ('xm', ((y, 1),), 1), ('xm', (), 2), ('xq', ((y, 1), (x, 2))), ('xn',),
                    ('ul', (y, x, y)), ('md', ((x, 2),))]
+            if rejected_counted < MAX_REJECTED_COUNTED:  # (a function of the canonical state: total - sum of true counts)
+                ops += [('xa', 0), ('xa', 1 + len(used) % (len(UNHASHABLE) - 1)), ('xu', (y,), (x,), 2)]
             if self.key_types == 'str':
                 ops += [('xk', (x,), ((y, 1),)), ('xk', (), ((x, 2),))]
             return ops
@@ -761,6 +800,9 @@ class Spec:
             ops += [('uS', (x, y)), ('uF', (y,)), ('uv', (y, x)), ('ul', ()), ('ug', ()), ('md', ()), ('mq', ())]
             for kind in list(MAP_KINDS) + list(DUCK_KINDS) + ['mt']:
                 ops += [(kind, ((y, 1), (x, 3))), (kind, ((x, 2),))]
+            # a ThresholdCounter that has culled keys (its items() no longer cover its total), and the counter itself
+            # (bucket width 2: reports x:2 of 4 additions; bucket width 3: reports x:3, y:1 of 5 additions)
+            ops += [('mT', (y, x, x, x), 0.5), ('mT', (y, x, x, x, y), 0.3), ('mS',)]
             if self.key_types == 'str':
                 ops += [('mkw', (), ((x, 1), (y, 2))), ('kw', (), ())]
             return ops
@@ -1136,8 +1178,18 @@ def run(ctx):
         'total - additions_before of the unit additions the source handed over before failing (any number from none - '
         'all-or-nothing - to all of them is accepted, whether or not the exception propagates); all demands of the '
         'statement then hold for that stream and every later operation.  An over-/under-count is reported only if no '
-        'choice of that many handed-over unit additions explains the reported counts.  Unhashable keys are outside '
-        'the domain (the statement speaks of keys of a counter) and not passed',
+        'choice of that many handed-over unit additions explains the reported counts',
+        'an unhashable object (list, dict, tuple holding a list, set, bytearray) cannot be a key; add(<unhashable>) and '
+        'update([key, <unhashable>, key]) are calls of the stream all the same (updates=failing).  Whether the call '
+        'raises is not judged and the rejected object has no true count; the statement does not say whether the '
+        'rejected call is an "addition": total may or may not count it (either reading accepted, the object\'s total '
+        'decides, the slack floor(total/w) follows it) - all demands then hold for the hashable keys of the stream '
+        'after that call and after every later one.  Unhashable objects are offered while total - sum of true counts '
+        '(the rejected objects total has counted) < %d' % MAX_REJECTED_COUNTED,
+        'update(ThresholdCounter): the source is another counter that is exact (threshold 0.001), another counter '
+        'that has already culled part of its own stream (bucket width 2 or 3), or the '
+        'counter itself; the additions are the (key, count) pairs the source\'s items() reports just before the call '
+        '- what a source has culled is no count of the mapping passed',
         'lists returned by items/keys/values/most_common and containers passed to update() belong to the caller: editing '
         'them afterwards is no operation on the counter, the statement\'s demands on later reads are unchanged',
         'most_common(0) is the top 0 pairs: an empty list',
